@@ -30,6 +30,7 @@ func C17(r *core.Run) {
 	// declaration order of keys in paths, status numbering: the provenance rules
 	provNoReorder(r)
 	provEnumNumbers(r)
+	enumNumberingAgrees(r)
 	entityPathKeys(r, info)
 	pathVariablesPerSegment(r)
 	// the key markers (primary, foreign, tenant) are independent: each is emitted whatever the others are
